@@ -254,6 +254,7 @@ func c06Interplay(full bool) []string {
 }
 
 func c06Run(c *core.Ctx) {
+	processWarmup()
 	report := func(k, d, src string, size int) {
 		if k == "" || !c.ShrinkOK(k) {
 			return
